@@ -163,7 +163,8 @@ pub fn main(args: &[String]) -> i32 {
         let Ok(native) = Beatmap::from_bytes(text.as_bytes()) else { continue };
         let mut cfg = all[rng.gen_range(0..all.len())].clone();
         if mode == "osu" {
-            cfg.mods |= [0u32, 1024, 4, 128, 8192, 1024 | 4][rng.gen_range(0..6)];
+            // TouchDevice, Relax, Autopilot each adjust the flashlight rating; together their ORDER matters (power vs factor)
+            cfg.mods |= [0u32, 1024, 4, 128, 8192, 1024 | 4, 4 | 128, 4 | 8192, 1024 | 4 | 128][rng.gen_range(0..9)];
         }
         let mut d = cfg.difficulty();
         if rng.gen_bool(0.4) {
